@@ -1540,9 +1540,18 @@ def real_world(kind, adapt=True):
     from torchtree.distributions.joint_distribution import JointDistributionModel
     om = _om()
     kw = {} if adapt else {"disable_adaptation": True}
+    # "<Operator>@view": the operator acts on slice views of one packed parameter (what the command line builds for partitioned data)
+    as_view = kind.endswith("@view")
+    kind = kind.split("@")[0]
     if kind in ("ScalerOperator", "SlidingWindowOperator", "HMCOperator"):
-        x = Parameter("x", torch.tensor([0.7, 1.9, 0.2]))
-        y = Parameter("y", torch.tensor([0.4, 2.2]))
+        if as_view:
+            from torchtree.core.parameter import ViewParameter
+            packed = Parameter("packed", torch.tensor([0.7, 1.9, 0.2, 9.9, 0.4, 2.2]))
+            x = ViewParameter("x", packed, slice(0, 3))
+            y = ViewParameter("y", packed, slice(4, 6))
+        else:
+            x = Parameter("x", torch.tensor([0.7, 1.9, 0.2]))
+            y = Parameter("y", torch.tensor([0.4, 2.2]))
         if kind == "ScalerOperator":
             d1 = Distribution("px", torch.distributions.Gamma, x, {"concentration": Parameter("a", torch.tensor([2.0])), "rate": Parameter("b", torch.tensor([1.5]))})
             d2 = Distribution("py", torch.distributions.Gamma, y, {"concentration": Parameter("a2", torch.tensor([3.0])), "rate": Parameter("b2", torch.tensor([0.5]))})
@@ -1567,7 +1576,11 @@ def real_world(kind, adapt=True):
             op = hm.HMCOperator("op", joint, [x, y], LeapfrogIntegrator("lf", 4, 0.15), Parameter("mass", torch.ones(5)), 1.0, 0.8, [], **kw)
         return {"op": op, "params": [x, y], "joint": joint, "oracle": oracle, "models": [d1, d2, joint]}
     if kind == "DirichletOperator":
-        f = Parameter("f", torch.tensor([0.2, 0.3, 0.5]))
+        if as_view:
+            from torchtree.core.parameter import ViewParameter
+            f = ViewParameter("f", Parameter("packedf", torch.tensor([0.2, 0.3, 0.5, 7.0])), slice(0, 3))
+        else:
+            f = Parameter("f", torch.tensor([0.2, 0.3, 0.5]))
         d1 = Distribution("pf", torch.distributions.Dirichlet, f, {"concentration": Parameter("c", torch.tensor([2.0, 3.0, 1.5]))})
         joint = JointDistributionModel("joint", [d1])
         op = om.DirichletOperator("op", [f], 1.0, 0.24, 60.0, **kw)
@@ -1596,6 +1609,51 @@ def real_world(kind, adapt=True):
             return c2().sum() + GMRF("gmrf", f2, p2)().sum() + _gamma_lp(_snap(prec.tensor), 1.0, 1.0)
         return {"op": op, "params": [field, prec], "joint": joint, "oracle": oracle, "models": [coal, gm, gprior, joint]}
     raise KeyError(kind)
+
+
+def gmrf_view_field():
+    """GMRF block update: the proposal and its Hastings value are functions of the VALUES of the field and the precision - the same whether the
+    field is a Parameter of its own or a slice view of a larger parameter (whose storage the assignment of the proposal overwrites)"""
+    import importlib
+    from torchtree.core.parameter import Parameter, TransformedParameter, ViewParameter
+    from torchtree.distributions.gmrf import GMRF
+    from torchtree.evolution.coalescent import FakeTreeModel, PiecewiseConstantCoalescentGridModel
+    gmod = importlib.import_module("torchtree.inference.mcmc.gmrf_block_updating")
+    vals = [1.0, 0.5, 0.2, 0.1]
+    out = {}
+    n = 0
+    for seed_ in (3, 11, 29):
+        for holder in ("plain", "view"):
+            if holder == "plain":
+                field = Parameter("field", torch.tensor(vals))
+            else:
+                field = ViewParameter("field", Parameter("big", torch.tensor([9.0] + vals + [7.0])), slice(1, 5))
+            prec = Parameter("prec", torch.tensor([2.0]))
+            gm = GMRF("gmrf", field, prec)
+            theta = TransformedParameter("theta", field, torch.distributions.ExpTransform())
+            heights = torch.tensor([0., 0., 0.1, 0.2, 0.0, 0.3, 0.7, 1.1, 2.0])
+            coal = PiecewiseConstantCoalescentGridModel("coal", theta, Parameter(None, torch.tensor([0.4, 0.9, 1.5])), FakeTreeModel(Parameter(None, heights)))
+            op = gmod.GMRFPiecewiseCoalescentBlockUpdatingOperator("op", coal, gm, 1.0, 0.24, 2.0)
+            torch.manual_seed(seed_)
+            h = op.step()
+            out[(seed_, holder)] = (float(h), _snap(field.tensor).tolist(), float(prec.tensor))
+            n += 1
+        a, b = out[(seed_, "plain")], out[(seed_, "view")]
+        if any(abs(x - y) > 1e-12 for x, y in zip(a[1] + [a[2]], b[1] + [b[2]])):
+            raise Undecided("the two runs did not make the same proposal: %s vs %s" % (a, b))
+        if not (abs(a[0] - b[0]) <= 1e-10 * max(1.0, abs(a[0])) or (a[0] == b[0])):
+            raise Refuted("GMRF block update, same values and random stream, same proposal %s: Hastings value %r with the field as a Parameter, %r with the field as a slice view of a "
+                          "larger parameter" % (a[1], a[0], b[0]), witness={"seed": seed_, "plain": a, "view": b}, confirmed=True,
+                          replay={"kind": "custom", "contract": "C15", "func": "replay_gmrf_view_field", "args": {}})
+    return {"backend": "concrete", "cases": n, "statement": "GMRF block update: %d proposals, Hastings value independent of how the field parameter is held" % n}
+
+
+def replay_gmrf_view_field(args):
+    try:
+        gmrf_view_field()
+    except Refuted as e:
+        return False, e.detail
+    return True, "held"
 
 
 REAL_KINDS = ["ScalerOperator", "SlidingWindowOperator", "DirichletOperator", "GMRFPiecewiseCoalescentBlockUpdatingOperator", "HMCOperator"]
@@ -2520,6 +2578,7 @@ def obligations(tier, seed):
     obs.append(Ob("C15.restore.real[HMCOperator,all-trials-fail]", "U", hmc_failure_path, clause=R, funcs=F, timeout=120))
     for k in (1, 2):
         obs.append(Ob("C15.gmrf.inf_path[cholesky#%d]" % k, "U", (lambda k=k: gmrf_inf_path(k)), clause="failure sentinel +inf is rejected and restored", funcs=F, timeout=120))
+    obs.append(Ob("C15.gmrf.view_field", "B", gmrf_view_field, clause="GMRF block update: Hastings value independent of how the field parameter is held (bounded)", funcs=F, timeout=120))
     obs.append(Ob("C15.gmrf.draw_consistent", "B", gmrf_draw_consistent, clause="GMRF block update: proposal drawn from the distribution its Hastings density describes (bounded)", funcs=F, timeout=120))
     # HMC: the Hastings value itself is C16's contract; the representation invariant it reads at step time is re-stated here because a
     # checkpoint restore or an adaptor is part of "any run" (same scenario as C16.hastings.mass_invariant, run under this property)
@@ -2547,7 +2606,8 @@ def obligations(tier, seed):
     L = "every logged row is self-consistent"
     iters = 3000 if thorough else 300
     runs = [(REAL_KINDS, True, 0), (REAL_KINDS, False, 0), (["ScalerOperator", "SlidingWindowOperator"], True, 7),
-            (["DirichletOperator"], True, 0), (["GMRFPiecewiseCoalescentBlockUpdatingOperator"], True, 0), (["HMCOperator"], True, 1)]
+            (["DirichletOperator"], True, 0), (["GMRFPiecewiseCoalescentBlockUpdatingOperator"], True, 0), (["HMCOperator"], True, 1),
+            (["ScalerOperator@view", "SlidingWindowOperator@view", "DirichletOperator@view"], True, 0)]
     for kinds, adapt, ev in runs:
         label = "mixture" if len(kinds) == len(REAL_KINDS) else "+".join(k.replace("Operator", "").replace("PiecewiseCoalescentBlockUpdating", "") for k in kinds)
         obs.append(Ob("C15.log.whole_run[%s,adapt=%s]" % (label, "on" if adapt else "off"), "B", ob_whole_run(kinds, adapt, iters, seed + 1, ev),
